@@ -241,6 +241,21 @@ class Server:
             return httpx.Response(202)
         if m == "202_silence":
             return httpx.Response(202)
+        if m in ("202_silence_comments", "202_silence_notes"):
+            # the answer never comes, but the stream is not quiet: keep-alive comments, or notifications about other
+            # things, more often than the timeout. The request still ends (synthesised timeout) after the timeout
+            async def chatter():
+                for k in range(12):
+                    await asyncio.sleep(0.3 * TIMEOUT)
+                    if self.stream is None or self.stream.closed:
+                        return
+                    if m == "202_silence_comments":
+                        self.stream.feed(b": ping\n\n")
+                    else:
+                        self.stream.feed(sse_event(None if self.bare else "message", json.dumps(
+                            {"jsonrpc": "2.0", "method": "notifications/message", "params": {"level": "info", "data": f"still busy {k}"}}), self.framing))
+            asyncio.create_task(chatter(), name="vf-sse-later")
+            return httpx.Response(202)
         if m == "202_then_stream_end":
             # the request is acknowledged and then the server ends the event stream (restart, dropped connection)
             self.stream.release()
@@ -298,7 +313,8 @@ REQUEST_MODES = ["200_body", "200_error_body", "202_then_event", "event_then_202
                  "200_json_object_nonrpc", "200_json_array_nonrpc", "400_nullid_error",
                  "server_request_same_id_then_200_body", "server_request_same_id_then_202_event",
                  "event_then_500", "event_then_exception", "event_note_then_202", "event_note_later_then_202",
-                 "202_then_malformed_event", "malformed_event_then_202"]   # (event + 200 body = a server answering twice: not a stated mode)
+                 "202_then_malformed_event", "malformed_event_then_202",
+                 "202_silence_comments", "202_silence_notes"]   # (event + 200 body = a server answering twice: not a stated mode)
 IDS = [1, 0, "abc", "123", 2**53 + 1, "", -1]
 
 
@@ -484,9 +500,9 @@ async def scenario(case: Dict[str, Any], srv: Server, obs: Dict[str, Any]):
                     if case.get("leave_after") is not None:
                         await asyncio.sleep(case["leave_after"])     # the application leaves while the request is pending
                         break
-                    await asyncio.sleep(TIMEOUT + 1.5 if req["mode"] in ("202_silence", "202_then_malformed_event", "malformed_event_then_202", "202_then_event", "event_then_202",
+                    await asyncio.sleep(TIMEOUT + 1.5 if req["mode"] in ("202_silence", "202_silence_comments", "202_silence_notes", "202_then_malformed_event", "malformed_event_then_202", "202_then_event", "event_then_202",
                                                                          "202_then_event_error", "event_then_202_error")
-                                        and (req["mode"] in ("202_silence", "202_then_malformed_event", "malformed_event_then_202") or req.get("delay", 0) > 1) else 1.5)
+                                        and (req["mode"] in ("202_silence", "202_silence_comments", "202_silence_notes", "202_then_malformed_event", "malformed_event_then_202") or req.get("delay", 0) > 1) else 1.5)
                 if case.get("server_msgs"):
                     await asyncio.sleep(2.0 + max(0.0, case.get("server_msgs_at", 0.5) - 0.5))
                 if case.get("answer_server_requests"):
